@@ -556,6 +556,75 @@ LEGALL_INT = dict(h0o=np.array([-1., 2, 6, 2, -1]), h1o=np.array([-1., 2, -1]),
                   g0o=np.array([1., 2, 1]), g1o=np.array([-1., -2, 6, -2, -1]))       # S o A = 32 I per axis
 
 
+def masks_replay(rep, fnd, records, pid, tier):
+    """S->C for the mask machine of DTCWT2 (api "fwdm"): every (H, W, J, skip set, include set) TLC enumerated is run on
+    the real DTCWTForward (masks as list / tuple / ndarray, cycling) and compared with what the specification says the
+    call hands back - the kind of `yl`, per level subbands-or-placeholder with the pyramid's shapes - and, for the
+    values, with the plain transform of the same input (levels that are present are bitwise the plain ones, requested
+    scales are bitwise the lowpasses of the shorter transforms)."""
+    rng = np.random.default_rng(46500 + seed())
+    recs = [r for r in records if r.get("kind") == "dt2.fwdm"]
+    if not recs:
+        rep.fail("DTCWT2 produced no mask records")
+        return
+    plain = {}
+    n_ok = 0
+    for k, r in enumerate(recs):
+        H, W, J = r["H"], r["W"], r["J"]
+        skip = [(j + 1) in r["skip"] for j in range(J)]
+        incl = [(j + 1) in r["incl"] for j in range(J)]
+        wrap = [list, tuple, np.array][k % 3]
+        key = (H, W, J)
+        if key not in plain:
+            x = torch.tensor(rng.standard_normal((1, 2, H, W)))
+            plain[key] = (x, pw.DTCWTForward(J=J)(x), [pw.DTCWTForward(J=j)(x)[0] for j in range(1, J + 1)])
+        x, (yl0, yh0), lows = plain[key]
+        cfg = dict(H=H, W=W, J=J, skip_hps=skip, include_scale=incl, mask_type=wrap.__name__)
+        case = {"api": "DTCWTForward", "check": "mask_machine", "cfg": cfg}
+        rep.validated()
+        if any(skip) and any(incl):
+            rep.nontriv(("fwdm", H, W, J, tuple(skip), tuple(incl)))
+        try:
+            yl, yh = pw.DTCWTForward(J=J, skip_hps=wrap(skip), include_scale=wrap(incl))(x)
+        except Exception as e:   # noqa
+            rep.violation("DTCWTForward(skip_hps=%s, include_scale=%s) raised %r at %s" % (skip, incl, e, cfg), dict(case, observed=repr(e)))
+            continue
+        kind = "list" if isinstance(yl, (list, tuple)) else "tensor"
+        bad = None
+        if kind != r["yl"]:
+            bad = "yl is a %s, the specification says %s" % (kind, r["yl"])
+        elif len(yh) != J:
+            bad = "%d bandpass entries for J=%d" % (len(yh), J)
+        else:
+            for j in range(J):
+                t = r["trail"][j]
+                o = r["outs"][j]
+                h = yh[j]
+                if o["hp"] == "subbands":
+                    if tuple(h.shape) != (1, 2, 6, t["hi_r"], t["hi_c"], 2) or not torch.equal(h, yh0[j]):
+                        bad = "level %d is not the plain transform's level (shape %s)" % (j + 1, tuple(h.shape))
+                        break
+                elif h.numel() > 1:
+                    bad = "level %d was skipped but is not a placeholder (shape %s)" % (j + 1, tuple(h.shape))
+                    break
+                if kind == "list":
+                    sc = yl[j]
+                    if o["scale"] == "lowpass":
+                        if tuple(sc.shape) != (1, 2, t["lo_r"], t["lo_c"]) or not torch.equal(sc, lows[j]):
+                            bad = "the requested scale of level %d is not the lowpass of the %d-level transform" % (j + 1, j + 1)
+                            break
+                    elif sc.numel() > 1:
+                        bad = "scale %d was not requested but is returned" % (j + 1)
+                        break
+            if bad is None and kind == "tensor" and not torch.equal(yl, yl0):
+                bad = "the lowpass differs from the plain transform's"
+        if bad:
+            rep.violation("DTCWTForward(skip_hps=%s, include_scale=%s): %s at %s" % (skip, incl, bad, cfg), case)
+        else:
+            n_ok += 1
+    rep.count("mask_machine_cases_ok", n_ok)
+
+
 def lattice_set(m, off):
     """the rational q-shift instance of spec/DTCWT1Laws.tla (65*h = (15,20,-48,36) at an even offset)"""
     h0a = np.zeros(m)
